@@ -16,6 +16,7 @@ from unittest import mock
 import hypothesis
 
 from harness import engine_common as E
+from harness.core import InfraError
 from harness.gen_engine_tables import render
 
 logging.getLogger("werkzeug").setLevel(logging.ERROR)
@@ -62,6 +63,11 @@ def prepare(chk):
     chk.write_generated("Engine", render())
 
 
+def E_driver():
+    from harness.core import Driver
+    return Driver("Engine")
+
+
 def settings_probe(chk):
     """the user's max_examples must reach the test (F1): one operation, max_examples = 3, fuzzing only"""
     from schemathesis.engine.phases import PhaseName
@@ -78,6 +84,85 @@ def settings_probe(chk):
         chk.violation(KF_SETTINGS, "user-provided Hypothesis settings do not reach the test: every operation errors or the "
                       "request count exceeds max_examples", {"stream": ps, "requests": len(log)})
     return "repaired" if ok else "asFound"
+
+
+# ---- create_test: which Hypothesis settings the test runs with (SV/Model/C12Settings.lean) -----------------------------
+
+def _settings_wire(st):
+    return {"max_examples": st.max_examples, "stateful_step_count": st.stateful_step_count,
+            "deadline": None if st.deadline is None else int(st.deadline.total_seconds() * 1000),
+            "derandomize": bool(st.derandomize), "phases": [p.name for p in st.phases]}
+
+
+def settings_corr(chk, n):
+    """the real `create_test` under different ACTIVE Hypothesis profiles x configured settings x test modes, against the
+    model; replay: max_examples / stateful_step_count / derandomize of the test are the configured ones"""
+    import hypothesis
+    from hypothesis import Phase as HP
+    from schemathesis.generation import GenerationConfig
+    from schemathesis.generation.hypothesis.builder import (SETTINGS_ATTRIBUTE_NAME, HypothesisTestConfig, HypothesisTestMode,
+                                                            create_test)
+    rng = chk.rng
+    drv = E_driver()
+    op = E.load_schema("http://127.0.0.1:9", 1)["/op0"]["GET"]
+    stock = hypothesis.settings.get_profile("default")
+    all_phases = list(HP)
+    prev_default = hypothesis.settings.default
+    work, reqs = [], []
+    try:
+        for i in range(n):
+            # the active profile: stock, or a project profile that differs in some items
+            if i % 3 == 0:
+                active_kw = {}
+            else:
+                active_kw = {k: v for k, v in {"max_examples": rng.choice([7, 140, 100]), "stateful_step_count": rng.choice([3, 50]),
+                                                "deadline": rng.choice([None, 200, 999]),
+                                                "derandomize": rng.random() < 0.3}.items() if rng.random() < 0.7}
+            name = f"verif-{chk.seed}-{i}"
+            hypothesis.settings.register_profile(name, hypothesis.settings(stock, **active_kw))
+            hypothesis.settings.load_profile(name)
+            active = hypothesis.settings.default
+            conf = None
+            if rng.random() < 0.9:
+                conf_kw = {"max_examples": rng.choice([100, 140, 7, 3, active.max_examples]),
+                           "stateful_step_count": rng.choice([50, 3, 9]), "derandomize": rng.random() < 0.3,
+                           "phases": rng.choice([all_phases, [HP.generate], [HP.explicit, HP.generate, HP.explain], [HP.explicit]])}
+                if rng.random() < 0.6:
+                    conf_kw["deadline"] = rng.choice([None, 200, 999, 15000])
+                conf = hypothesis.settings(**conf_kw, database=None)
+            fuzzing = rng.random() < 0.6
+
+            def test_func(*, ctx, case, errors, recorder):
+                pass
+            cfg = HypothesisTestConfig(generation=GenerationConfig(), settings=conf,
+                                       modes=[HypothesisTestMode.FUZZING] if fuzzing else [HypothesisTestMode.EXAMPLES])
+            try:
+                t = create_test(operation=op, test_func=test_func, config=cfg)
+                impl = _settings_wire(getattr(t, SETTINGS_ATTRIBUTE_NAME))
+            except Exception as e:  # noqa: BLE001
+                impl = f"raises:{type(e).__name__}"
+            a = {"against": "active", "active": _settings_wire(active), "stock": _settings_wire(stock),
+                 "configured": None if conf is None else _settings_wire(conf), "fuzzing": fuzzing}
+            work.append((a, impl))
+            reqs.append(("settings", a))
+    finally:
+        hypothesis.settings.register_profile("verif-restore", prev_default)
+        hypothesis.settings.load_profile("verif-restore")
+    for (a, impl), m in zip(work, drv.batch(reqs)):
+        chk.case("create_test:settings", key=a, nontrivial=a["configured"] is not None, sample={"in": a, "impl": impl})
+        chk.feature("settings:active=" + ("stock" if a["active"] == a["stock"] else "project-profile"))
+        if isinstance(m, dict) and "__err__" in m:
+            raise InfraError(f"model error {m}")
+        if impl != m:
+            chk.disagreement("create_test:settings", a, m, impl)
+        c = a["configured"]
+        if c is not None and isinstance(impl, dict):
+            for k in ("max_examples", "stateful_step_count", "derandomize"):
+                if impl[k] != c[k]:
+                    chk.violation(f"C12:create_test:configured-{k}-does-not-reach-the-test",
+                                  f"configured {k}={c[k]} but the test runs with {impl[k]} (active profile: {a['active'][k]}, "
+                                  f"stock default: {a['stock'][k]})", a)
+                    break
 
 
 def limit_runs(chk, n):
@@ -328,6 +413,7 @@ def run(chk):
         pass
     for _ in E.worker_correspondence(chk, chk.budget(80, 1000)):
         pass
+    settings_corr(chk, chk.budget(60, 600))
     limit_runs(chk, chk.budget(10, 120))
     examples_runs(chk, chk.budget(6, 60))
     after_stop_runs(chk, chk.budget(6, 60))
